@@ -43,6 +43,10 @@ def sq_ok(rep, true, scale, eps, squared_form=False):
     return abs(float(rep) ** 2 - float(true) ** 2) <= 5e4 * eps * scale
 
 
+def seed_of(case):
+    return int(gen.rng(case["seed"], case["idx"], "seed").randint(0, 2 ** 31 - 1))
+
+
 def _with_sparse(dec):
     return type(dec) is tuple and len(dec) == 2 and hasattr(dec[0], "factors")
 
@@ -101,6 +105,38 @@ def _run_case(case, ctx):
             if not np.isfinite(float(errs[-1])) or abs(float(errs[-1]) ** 2 - te ** 2) > 1e5 * eps * max(sc, 1.0):
                 ctx.violation("C06:tucker:last-error:fixed-factors", "tucker(fixed_factors=%s), n_iter_max=%d: last reported error %.9g but the returned decomposition has true error %.9g" % (
                     fixed, k, float(errs[-1]), te), desc)
+        return
+    if algo == "tucker" and data["kind"] == "tensor" and case["idx"] % 6 == 4:
+        # HOOI with missing values: each sweep fits the data completed from the previous iterate; the value it reports is the relative
+        # error of the new iterate on that completed tensor (prefix runs give the iterates, the zero-budget run the starting model)
+        from tensorly import decomposition as D
+        X = ref.hp(data["X"])
+        rk = [int(rs.randint(1, s_ + 1)) for s_ in X.shape]
+        mask = (rs.uniform(size=X.shape) < 0.8).astype(float)
+        filler = float(gen.choice(rs, [0.0, 0.0, 3.0])) * float(np.max(np.abs(X)))
+        Xin = X * mask + filler * (1 - mask)
+        init_ = gen.choice(rs, ["svd", "random"])
+        Kmax = int(rs.randint(2, 6))
+        desc = {"algo": algo, "data": data["cls"] + "+mask", "shape": list(X.shape), "rank": rk, "init": init_, "filler": filler, "sweeps": Kmax}
+        ctx.count("checked/%s" % algo)
+        models, errs_k = {}, {}
+        for k in range(0, Kmax + 1):
+            out, errs = D.tucker(Xin.copy(), rk, n_iter_max=k, mask=mask.copy(), init=init_, tol=0, random_state=seed_of(case), return_errors=True)
+            models[k] = ref.tucker_dense(*decomp.snapshot(out))[0]
+            errs_k[k] = [float(e) for e in errs]
+        ctx.nontriv(desc)
+        for k in range(1, Kmax + 1):
+            if len(errs_k[k]) != k or any(abs(a - b) > 1e-9 * (1 + abs(b)) for a, b in zip(errs_k[k][:-1], errs_k[k - 1])):
+                ctx.violation("C06:tucker:prefix:mask", "masked tucker: the error list of the %d-sweep run %r does not extend the one of the %d-sweep run %r" % (k, errs_k[k], k - 1, errs_k[k - 1]), desc)
+                return
+            Tk = X * mask + models[k - 1] * (1 - mask)
+            want_sq = ref.frob_sq(Tk - models[k]) / ref.frob_sq(Tk)
+            ctx.count("values/masked-tucker")
+            rep = errs_k[k][-1]
+            if not np.isfinite(rep) or abs(rep ** 2 - want_sq) > 1e6 * eps * max(1.0, want_sq):
+                ctx.violation("C06:tucker:masked-error:any", "masked tucker, sweep %d: reported %.9g but the iterate has error %.9g on the data completed from the previous iterate" % (
+                    k, rep, float(np.sqrt(want_sq))), desc)
+                return
         return
     rank = decomp.pick_rank(rs, algo, data)
     if algo == "cmtf":
